@@ -671,6 +671,29 @@ impl BuildJob<'_> {
             log_err!("{:?}: zap_deps2: {}", t, e);
             rv = EXIT_BUILD_JOB_ERROR;
         }
+        if rv == EXIT_SUCCESS {
+            // The script succeeded although a dependency it asked for failed in
+            // this run (it chose to carry on).  What it produced reflects that
+            // failure, so it must not look up to date once the dependency can be
+            // built again: until it builds without such a failure, treat it like a
+            // target that called redo-always.
+            match sf.deps(ptx) {
+                Ok(deps) => {
+                    if deps.iter().any(|(_, d)| d.is_failed(ptx.state().env())) {
+                        if let Err(e) =
+                            sf.add_dep(ptx, state::DepMode::Modified, state::always_filename())
+                        {
+                            log_err!("{:?}: add_dep: {}", t, e);
+                            rv = EXIT_BUILD_JOB_ERROR;
+                        }
+                    }
+                }
+                Err(e) => {
+                    log_err!("{:?}: deps: {}", t, e);
+                    rv = EXIT_BUILD_JOB_ERROR;
+                }
+            }
+        }
         if let Err(e) = sf.save(ptx) {
             log_err!("{:?}: set failed: {}", t, e);
             rv = EXIT_BUILD_JOB_ERROR;
